@@ -75,6 +75,15 @@ def run_machine(mod, make_machine, n_examples, steps, seed, ctx, findings, repor
             ctx.fail_calls = 0
             ctx.failing_hashes = set()
         except Exception as e:  # noqa
+            if ctx.last_failure is not None and ctx.harness_error is None:
+                # e.g. Hypothesis' Flaky error: the recorded history did produce a real diff at least once
+                case, items, bucket = ctx.last_failure
+                failures.append({"case": case, "items": items + [{"b": "note:outcome_varies_between_runs"}], "bucket": bucket})
+                reported.add(bucket)
+                ctx.last_failure = None
+                ctx.fail_calls = 0
+                ctx.failing_hashes = set()
+                continue
             ctx.harness_error = "".join(traceback.format_exception(type(e), e, e.__traceback__))[-4000:]
             break
 
